@@ -68,27 +68,37 @@ class EstimateAlphaBeta(Contract):
             cx.oblige("post.structure", False, "post", "expected intermediate quantities not found")
             return
         L = {nm: T.zr(term_of(loc[nm])) for nm in names}
-        # step 1 (about the code): the intermediate quantities are the weighted means with weights w / sum(w)
-        pb, xb, pxb, ppb = S_wp / S_w, S_wx / S_w, S_wpx / S_w, S_wpp / S_w
-        cx.require("post.weighted_mean.p", L["p_star_bar"] == pb, "post", "p*_bar = sum(w p*) / sum(w)")
-        cx.require("post.weighted_mean.x", L["x_star_bar"] == xb, "post", "x*_bar = sum(w x*) / sum(w)")
-        cx.require("post.slope.dividend", L["b_hat_dividend"] == pxb - pb * xb, "post", "weighted covariance")
-        cx.require("post.slope.divisor", L["b_hat_divisor"] == ppb - pb * pb, "post", "weighted variance")
-        cx.require("post.slope", L["b_hat"] * L["b_hat_divisor"] == L["b_hat_dividend"], "post", "b = cov / var")
-        cx.require("post.intercept", L["a_hat"] == L["x_star_bar"] - L["b_hat"] * L["p_star_bar"], "post", "a = x*_bar - b p*_bar")
-        cx.require("post.alpha", T.zr(a) == L["a_hat"], "post", "alpha = 10^a")
-        cx.require("post.beta", T.zr(bt) * L["b_hat_dividend"] == L["b_hat_divisor"], "post", "beta = 1/b")
+        u = 1 / S_w
+        # step 1 (about the code; syntactic identities after simplification where possible): the intermediate
+        # quantities are the weighted means / covariance / variance with weights w / sum(w)
+        cx.require_syntactic("post.weighted_mean.p", L["p_star_bar"], u * S_wp, "post", "p*_bar = sum(w p*) / sum(w)")
+        cx.require_syntactic("post.weighted_mean.x", L["x_star_bar"], u * S_wx, "post", "x*_bar = sum(w x*) / sum(w)")
+        cx.require_syntactic("post.slope.dividend", L["b_hat_dividend"], u * S_wpx - L["p_star_bar"] * L["x_star_bar"], "post", "weighted covariance")
+        cx.require_syntactic("post.slope.divisor", L["b_hat_divisor"], u * S_wpp - L["p_star_bar"] * L["p_star_bar"], "post", "weighted variance")
+        cx.require_syntactic("post.slope", L["b_hat"], L["b_hat_dividend"] / L["b_hat_divisor"], "post", "b = cov / var")
+        cx.require_syntactic("post.intercept", L["a_hat"], L["x_star_bar"] - L["b_hat"] * L["p_star_bar"], "post", "a = x*_bar - b p*_bar")
+        powlog = [f for f in cx.facts if ("r_log10" in f.sexpr() and "r_pow" in f.sexpr())]
+        cx.oblige_from("post.alpha", T.zr(a) == z3.simplify(L["a_hat"]), powlog, "post", "alpha = 10^a, i.e. log10(alpha) = a (from the ground instances log10(10^y) = y)")
+        cx.require_syntactic("post.alpha.same_term", z3.simplify(L["a_hat"]), L["a_hat"], "post", "the simplified form is the intercept a")
+        cx.require_syntactic("post.beta", T.zr(bt), L["b_hat_divisor"] / L["b_hat_dividend"], "post", "beta = var / cov = 1/b")
         # step 2 (pure algebra over fresh reals): these relations imply the normal equations for ANY sum(w) != 0
-        S, P, X, PX, PP, A_, B_ = z3.Reals("gS gP gX gPX gPP gA gB")
-        hyp = z3.And(S != 0, B_ * (PP / S - (P / S) * (P / S)) == PX / S - (P / S) * (X / S), A_ == X / S - B_ * (P / S))
-        cx.oblige("lemma.normal_equations.intercept", z3.Implies(hyp, X - A_ * S - B_ * P == 0), "lemma", "generic: holds for every normalisation of the weights")
-        cx.oblige("lemma.normal_equations.slope", z3.Implies(hyp, PX - A_ * P - B_ * PP == 0), "lemma")
-        # step 3: instance for the actual sums (the generic statements are obligations of this contract)
+        S, P, X, PX, PP, gu, gpb, gxb, gdvd, gdvs, gb, ga = z3.Reals("gS gP gX gPX gPP gu gpb gxb gdvd gdvs gb ga")
+        hyp = z3.And(gu * S == 1, gpb == gu * P, gxb == gu * X, gdvd == gu * PX - gpb * gxb, gdvs == gu * PP - gpb * gpb, gdvs != 0, gb == gdvd / gdvs, ga == gxb - gb * gpb)
+        cx.oblige_pure("lemma.normal_equations.intercept", z3.Implies(hyp, X - ga * S - gb * P == 0), "lemma", "generic: holds for every normalisation of the weights")
+        cx.oblige_pure("lemma.normal_equations.slope", z3.Implies(hyp, PX - ga * P - gb * PP == 0), "lemma")
+        # step 3: instance for the actual sums, discharged from the step-1 facts only
         az, bz = L["a_hat"], L["b_hat"]
-        inst = z3.And(S_w != 0, bz * (S_wpp / S_w - (S_wp / S_w) * (S_wp / S_w)) == S_wpx / S_w - (S_wp / S_w) * (S_wx / S_w), az == S_wx / S_w - bz * (S_wp / S_w))
-        cx.fact(z3.Implies(inst, z3.And(S_wx - az * S_w - bz * S_wp == 0, S_wpx - az * S_wp - bz * S_wpp == 0)), "lemma.normal_equations (instance)")
-        cx.oblige("post.normal_equation.intercept", S_wx - az * S_w - bz * S_wp == 0, "post", "d/da of the weighted squared error vanishes: sum w (x* - a - b p*) = 0, a = log10 alpha, b = 1/beta")
-        cx.oblige("post.normal_equation.slope", S_wpx - az * S_wp - bz * S_wpp == 0, "post", "d/db of the weighted squared error vanishes")
+        inst_h = z3.And(u * S_w == 1, L["p_star_bar"] == u * S_wp, L["x_star_bar"] == u * S_wx, L["b_hat_dividend"] == u * S_wpx - L["p_star_bar"] * L["x_star_bar"],
+                        L["b_hat_divisor"] == u * S_wpp - L["p_star_bar"] * L["p_star_bar"], L["b_hat_divisor"] != 0, bz == L["b_hat_dividend"] / L["b_hat_divisor"], az == L["x_star_bar"] - bz * L["p_star_bar"])
+        inst = z3.Implies(inst_h, z3.And(S_wx - az * S_w - bz * S_wp == 0, S_wpx - az * S_wp - bz * S_wpp == 0))
+        facts = [inst, S_w > 0, u * S_w == 1, L["b_hat_divisor"] != 0,
+                 L["p_star_bar"] == u * S_wp, L["x_star_bar"] == u * S_wx, L["b_hat_dividend"] == u * S_wpx - L["p_star_bar"] * L["x_star_bar"],
+                 L["b_hat_divisor"] == u * S_wpp - L["p_star_bar"] * L["p_star_bar"], bz == L["b_hat_dividend"] / L["b_hat_divisor"], az == L["x_star_bar"] - bz * L["p_star_bar"]]
+        cx.oblige_pure("lemma.reciprocal", z3.Implies(z3.And(S > 0, gu == 1 / S), gu * S == 1), "lemma")
+        cx.trusted.add("requires[_estimate_alpha_beta]: weighted variance of p* non-zero (declared pre-condition)")
+        cx.oblige_from("post.normal_equation.intercept", S_wx - az * S_w - bz * S_wp == 0, facts, "post",
+                       "d/da of the weighted squared error vanishes: sum w (x* - a - b p*) = 0 with a = log10 alpha, b = 1/beta (from the step-1 identities and the instance of lemma.normal_equations)")
+        cx.oblige_from("post.normal_equation.slope", S_wpx - az * S_wp - bz * S_wpp == 0, facts, "post", "d/db of the weighted squared error vanishes")
         cx.oblige("frame.inputs", self.x.buf.writes == 0 and self.w.buf.writes == 0 and self.p.buf.writes == 0, "frame")
 
     def replay(self, case, ob):
